@@ -14,9 +14,10 @@ Status on the pinned tree:
 * `C12_witness_restore_crash`: re-storing a key whose old entry has a directory output removes that entry in
   place (`fs.RemoveAll(cacheDir)`), so a crash — or a concurrent retrieve — in the middle of the removal is a
   HIT that restores part of the old tree;
-* `C12_witness_concurrent_compressed`: `retrieveFiles` returns `true, err` for compressed caches and `retrieve`
-  lets `os.IsNotExist(err)` through, so an entry that disappears between `PathExists` and `os.Open` is a HIT
-  that restores nothing.
+* FIXED (`fix:` commit in /repo): `retrieveFiles` used to return `true, err` for compressed caches and `retrieve`
+  lets `os.IsNotExist(err)` through, so an entry that disappeared between `PathExists` and `os.Open` was a HIT
+  that restored nothing (`C12_witness_concurrent_compressed`, now conditional on the old fact value).  With
+  `return false, err` the interleaving statement holds at full strength: `C12_concurrent_compressed`.
 -/
 namespace PlzVerif.Props.C12
 open PlzVerif.DirCache PlzVerif.Generated
@@ -28,7 +29,9 @@ def FactsOK : Bool :=
   C12.storeFileOrder == ["ready-dest", "link-to-dest"] &&
   C12.failedTarballRemoved && C12.retrieveChecksExistsFirst && C12.emptyOutsIsHit &&
   C12.pathParts == ["join-b64key", "param2", "param3", "field-Suffix"] &&
-  C12.damagedIsMiss
+  C12.damagedIsMiss &&
+  -- since the fix of `compressed-retrieve-enoent-reported-as-hit`: retrieveFiles returns `false, err` for compressed caches
+  C12.enoentIsMiss
 
 /-- Obligation a code change can break: the facts extracted from /repo satisfy the side condition. -/
 theorem C12_facts_ok : FactsOK = true := by decide
@@ -36,9 +39,14 @@ theorem C12_facts_ok : FactsOK = true := by decide
 theorem order_canon : C12.storeOrder = canonOrder := by
   have h := C12_facts_ok
   simp only [FactsOK, Bool.and_eq_true, beq_iff_eq] at h
-  exact h.1.1.1.1.1.1.1.1
+  exact h.1.1.1.1.1.1.1.1.1
 
 theorem damaged_is_miss : C12.damagedIsMiss = true := by
+  have h := C12_facts_ok
+  simp only [FactsOK, Bool.and_eq_true, beq_iff_eq] at h
+  exact h.1.2
+
+theorem enoent_is_miss : C12.enoentIsMiss = true := by
   have h := C12_facts_ok
   simp only [FactsOK, Bool.and_eq_true, beq_iff_eq] at h
   exact h.2
@@ -317,5 +325,15 @@ theorem C12_concurrent_compressed_if_fact (hfact : C12.enoentIsMiss = true) (src
       retrieveC2 C12.enoentIsMiss C12.damagedIsMiss (st a) (st b) outs = retrC fs0 outs ∨
       retrieveC2 C12.enoentIsMiss C12.damagedIsMiss (st a) (st b) outs = retrC (applyOpsC fs0 (storeC src outs)) outs := by
   rw [hfact]; exact C12_concurrent_compressed_if_enoent_is_miss src hsrc outs fs0 a b
+
+/-- FULL STRENGTH for the repaired code (an error from reading the tarball is a miss): one store and one retrieve of
+    a compressed cache, interleaved anyhow, old entry or not — the retrieve misses, or answers as before the store
+    began, or as after the complete store. -/
+theorem C12_concurrent_compressed (src : Tree) (hsrc : srcOK [] src = true) (outs : List Path) (fs0 : CFS) (a b : Nat) :
+    let st := fun n => applyOpsC fs0 ((storeC src outs).take n)
+    retrieveC2 C12.enoentIsMiss C12.damagedIsMiss (st a) (st b) outs = .miss ∨
+      retrieveC2 C12.enoentIsMiss C12.damagedIsMiss (st a) (st b) outs = retrC fs0 outs ∨
+      retrieveC2 C12.enoentIsMiss C12.damagedIsMiss (st a) (st b) outs = retrC (applyOpsC fs0 (storeC src outs)) outs :=
+  C12_concurrent_compressed_if_fact enoent_is_miss src hsrc outs fs0 a b
 
 end PlzVerif.Props.C12
